@@ -14,6 +14,7 @@ from typing import (
 
 from .types import (
     Intersection,
+    _ClassLevelTest,
     Order,
     Union,
     clsstring,
@@ -31,8 +32,11 @@ def generate_checking_code(typ):
     if hasattr(typ, "codegen"):
         return typ.codegen()
     elif not isinstance(typ, type) and get_origin(typ) is not None:
-        # type[A] and the like, which isinstance refuses
-        return CodeGen("{ic}({arg}, {this})", ic=instancecheck, this=typ)
+        # type[A] and the like, which isinstance refuses; what they admit is
+        # worked out once per class (passed or not)
+        if is_dependent(typ):
+            return CodeGen("{ic}({arg}, {this})", ic=instancecheck, this=typ)
+        return CodeGen("{test}({arg})", test=_ClassLevelTest(typ))
     else:
         return CodeGen("isinstance({arg}, {this})", this=typ)
 
